@@ -2476,6 +2476,36 @@ example : (match aggrRead sampleEnv .integer (IStream.ofBytes [40, 49, 44, 32, 4
     | .ok (sev, some [.atom (.int 1), .atom (.int 2)], s) => sev == .null && s.right == [44]
     | _ => false) = true := by decide
 
+/-- what `aggrRead` answers: severity NULL and these elements -/
+def aggrSilent (o : Except Stop (Sev × Option (List (Elem Nat)) × IStream)) (vals : List (Elem Nat)) : Bool :=
+  match o with
+  | .ok (sev, some es, _) => sev == .null && es == vals
+  | _ => false
+
+/-- the never-silent statement does *not* hold for aggregates as the element loop stands (proposed finding
+    `agg:missing-element-read-as-unset`): `('a',,'b')` — an element missing — is read with no error, the missing element
+    stored as an unset node; likewise `(.T.,)` and `(,#1)`.  (INTEGER elements report it: second conjunct.) -/
+theorem C09_aggr_missing_element_witness :
+    aggrSilent (aggrRead sampleEnv .string (IStream.ofBytes [40, 39, 97, 39, 44, 44, 39, 98, 39, 41, 44]))
+      [.atom (.str [39, 97, 39]), .atom .unset, .atom (.str [39, 98, 39])] = true ∧
+    aggrSilent (aggrRead sampleEnv .boolean (IStream.ofBytes [40, 46, 84, 46, 44, 41, 44])) [.atom (.enum 1), .atom .unset] = true ∧
+    (match aggrRead sampleEnv .integer (IStream.ofBytes [40, 49, 44, 44, 50, 41, 44]) with
+      | .ok (sev, _, _) => sev == .warning
+      | _ => false) = true := by
+  decide
+
+/-- a conforming `LIST OF NUMBER` is not accepted silently (proposed finding `agg:number-element-spelled-as-integer`): `(3)`
+    is read to `[3.0]` but reported WARNING — NUMBER elements are read by `ReadReal`, which demands the decimal point —
+    while `(3.)` is accepted; this is why `C09_aggr_elem_real` asks for a token of the `real` grammar for NUMBER too -/
+theorem C09_aggr_number_integer_spelling_witness :
+    (match aggrRead sampleEnv .number (IStream.ofBytes [40, 51, 41, 44]) with
+      | .ok (sev, some [.atom (.real v)], _) => sev == .warning && v == 0x4008000000000000
+      | _ => false) = true ∧
+    (match aggrRead sampleEnv .number (IStream.ofBytes [40, 51, 46, 41, 44]) with
+      | .ok (sev, some [.atom (.real v)], _) => sev == .null && v == 0x4008000000000000
+      | _ => false) = true := by
+  decide
+
 end Aggregates
 
 end StepModel.P21.C09
